@@ -198,3 +198,25 @@ func H_C06_SMB_DIRECTORY_INFORMATION() {
 	}
 	vCover("end")
 }
+
+// SMB_STRING at the upper boundary of its 16-bit length field (formats 0x01, 0x03, 0x05): payloads of 65533..65535
+// bytes (first and last byte symbolic, the rest zero) followed by trailing bytes.
+func H_C06_SMB_STRING_boundary() {
+	format := UCHAR(vParam("format"))
+	n := vParam("len")
+	payload := make([]byte, n)
+	payload[0], payload[n-1] = vU8("first"), vU8("last")
+	s := NewSMB_STRING(payload)
+	s.SetBufferFormat(format)
+	enc, err := s.Marshal()
+	vCheck(err == nil, "SMB_STRING-boundary/marshal-ok")
+	var d SMB_STRING
+	k, err := d.Unmarshal(withSuffix(enc))
+	vCheck(err == nil, "SMB_STRING-boundary/unmarshal-ok")
+	vCheck(k == len(enc), "SMB_STRING-boundary/consumed")
+	vCheck(int(d.Length) == n && len(d.Buffer) == n, "SMB_STRING-boundary/length")
+	if len(d.Buffer) == n {
+		vCheck(d.Buffer[0] == payload[0] && d.Buffer[n-1] == payload[n-1], "SMB_STRING-boundary/ends")
+	}
+	vCover("end")
+}
